@@ -672,7 +672,11 @@ fn drive_run(t: &mut Trace, d: &mut Drv, run: usize, len: usize) {
     }
     // constructor
     let mut sg = d.some(&pool, if small { 0.4 } else { 0.2 });
-    let pl = d.some(&POLS[..npol], 0.25);
+    let mut pl = d.some(&POLS[..npol], 0.25);
+    // the constructor itself enforces the documented limits (15 signers, 5 policies): stay inside them here,
+    // the limits are exercised by the judged add_* operations
+    pl.truncate(5);
+    sg.truncate(15);
     if sg.is_empty() && pl.is_empty() {
         sg.push("s1".to_string());
     }
@@ -826,7 +830,7 @@ fn main() {
         let in_call = W.with(|c| c.try_borrow().map(|wd| wd.in_call).unwrap_or(true));
         let mine = info.location().map(|l| l.file().ends_with("smartaccount.rs")).unwrap_or(false);
         let refusal = info.payload().downcast_ref::<&str>().map(|m| *m == "enforce refuses").unwrap_or(false);
-        if !(in_call && (!mine || refusal)) {
+        if std::env::var("VERIF_LOUD").is_ok() || !(in_call && (!mine || refusal)) {
             default_hook(info);
         }
     }));
